@@ -360,7 +360,7 @@ class Case:
             acc.count('c05_' + f)
             if f != 'consumed_in_empty_step':
                 acc.nontrivial((self.digest, k, f), cls=f)
-        if feats:
+        if [f for f in feats if f != 'consumed_in_empty_step']:
             acc.sample(dict(consumed=got_ev, name=name, due=due, step_time=step.time, features=feats,
                             internal_queue=[(x[0], x[2]) for x in model.iq[:4]],
                             external_queue=[(x[0], x[2]) for x in model.eq[:4]]))
